@@ -47,13 +47,26 @@ func LookupS(name string) *Strat {
 // SymSnapshots builds n snapshots with symbolic, valid OHLCV values
 // (0 < low <= open, close <= high; volume >= 0), named <prefix>o_i, h_i, l_i, c_i, v_i.
 func SymSnapshots(prefix string, n int) []*asset.Snapshot {
+	return symSnapshots(prefix, n, false)
+}
+
+// SymSnapshotsZ: as SymSnapshots, but prices may be zero (0 <= low): a missing quote.
+func SymSnapshotsZ(prefix string, n int) []*asset.Snapshot {
+	return symSnapshots(prefix, n, true)
+}
+
+func symSnapshots(prefix string, n int, zeroOK bool) []*asset.Snapshot {
 	ss := make([]*asset.Snapshot, n)
 	for i := range ss {
 		s := &asset.Snapshot{
 			Open: vrt.Float64(prefix+"o", i), High: vrt.Float64(prefix+"h", i), Low: vrt.Float64(prefix+"l", i),
 			Close: vrt.Float64(prefix+"c", i), Volume: vrt.Float64(prefix+"v", i),
 		}
-		vrt.Assume(s.Low > 0)
+		if zeroOK {
+			vrt.Assume(s.Low >= 0)
+		} else {
+			vrt.Assume(s.Low > 0)
+		}
 		vrt.Assume(s.Low <= s.Open)
 		vrt.Assume(s.Low <= s.Close)
 		vrt.Assume(s.Open <= s.High)
